@@ -653,6 +653,9 @@ pub fn packet_oracle(prop: &str, tier: &str, seed: u64, ops: Option<&[String]>) 
                     for p in &i5.packets {
                         po::c01::<V5>(&mut rep, p);
                     }
+                    if ops.is_none() {
+                        po::pair_sweeps(&mut rep, true);
+                    }
                 }
                 "C02" => {
                     for p in &i3.packets {
@@ -662,6 +665,7 @@ pub fn packet_oracle(prop: &str, tier: &str, seed: u64, ops: Option<&[String]>) 
                         po::c02::<V5>(&mut rep, p);
                     }
                     if ops.is_none() {
+                        po::pair_sweeps(&mut rep, false);
                         po::c02_oversize(&mut rep);
                         po::c02_property_boundaries(&mut rep);
                         po::c02_boundary(&mut rep);
@@ -1016,6 +1020,11 @@ pub fn c20(tier: &str, seed: u64, ops: Option<&[String]>) -> Report {
     let mut rep = Report::new("C20", "malformation catalogue x generated valid packets of both families x every position where each malformation applies (each field located in the encoding by re-encoding with that field changed and diffing): illegal header flags, PUBLISH QoS 3, reserved types, 5-byte remaining length, zero pid, return/reason code out of table, CONNACK flags, reserved connect flag, will QoS without will / QoS 3, wrong protocol name/level, cross-family level, non-UTF-8 in every text/topic/filter field, wildcard in topic names, invalid filters, SUBSCRIBE QoS 3 / option reserved bits / retain handling 3, empty subscription list, v5 unknown / disallowed / duplicated property, boolean property > 1, inner length past the frame, remaining length too long; expected error variants written from the doc-comments of Error/ErrorV5");
     crate::catalogue::run::<V3>(&mut rep, tier, seed, ops);
     crate::catalogue::run::<V5>(&mut rep, tier, seed.wrapping_add(7), ops);
+    if ops.is_none() {
+        // the classification of a frame must not depend on what was decoded before it
+        po::history_invariance::<V3>(&mut rep, &po::hist_frames::<V3>(tier, seed));
+        po::history_invariance::<V5>(&mut rep, &po::hist_frames::<V5>(tier, seed));
+    }
     rep.distinct = rep.cases;
     rep.sample("zero-pid: 40020000 -> ZeroPid on blocking, async, poll".into());
     rep.sample("non-utf8-string in CONNECT client id -> InvalidString".into());
